@@ -43,6 +43,7 @@ import (
 	"github.com/openGemini/openGemini/lib/util/lifted/influx/influxql"
 	"github.com/openGemini/openGemini/lib/util/lifted/influx/query"
 	"github.com/openGemini/openGemini/lib/util/lifted/vm/protoparser/influx"
+	"github.com/openGemini/openGemini/lib/verifhook"
 	"go.uber.org/zap"
 )
 
@@ -259,8 +260,10 @@ func (s *shard) cloneReaders(mm string, hasTimeFilter bool, tr util.TimeRange) (
 			snapshotTblFlushed = msInfo.GetFlushed()
 		}
 	}
+	verifhook.Yield("cloneReaders.afterSnapshotPtr")
 	startShardTier := s.tier
 	immutableReader, flushed := s.createImmutableReader(mm, hasTimeFilter, tr, snapshotTblFlushed)
+	verifhook.Yield("cloneReaders.beforeMemRef")
 	endShardTier := s.tier
 	if flushed {
 		mutableReader.Init(s.activeTbl, nil)
